@@ -636,3 +636,69 @@ def c18_cli(ctx, res):
         if on.rc == 1 and b"reserved" in on.err:
             res.violate("C18/cli/runtime-gate-on", "opcode 0xD (%s) refused although `-f stack` was given" % name, {"run": on.brief()})
     res.require(["l2:ext_program", "l2:plain_program", "l2:raw_0xD"], "L2")
+
+
+# ------------------------------------------------------------------ C09 (L2 sample)
+
+def c09_cli(ctx, res, limit):
+    import random
+    rnd = random.Random(ctx.seed * 31 + 9)
+    cp = corpus(ctx)
+    entries = [e for e in cp["structured"] if not e["input"] and "input" not in e["features"]][:limit]
+    d = _dir(ctx, "c09")
+    pool = ["step", "s", "si 3", "step into 10", "so", "continue", "c", "registers", "print r1", "print ^", "assembly",
+            "break list", "echo x", "help", "break add ^2", "break add x{o1:04x}", "break remove x{o1:04x}", "p x{o0:04x}",
+            "a x{o1:04x}", "bogus command", "si x", "print"]
+
+    def one(ix):
+        e = entries[ix]
+        name = "d%d.asm" % ix
+        _write(os.path.join(d, name), e["source"])
+        o0 = e["image"][0]
+        cmds = [rnd.choice(pool).format(o0=o0, o1=(o0 + rnd.randrange(0, max(1, len(e["image"]) - 1))) & 0xFFFF) for _ in range(rnd.randrange(0, 9))]
+        if rnd.random() < 0.5:
+            cmds.append("quit")
+        script = ";".join(cmds)
+        plain = lace(ctx, ["run", name, "--minimal"] + feat(e), stdin=b"", cwd=d, timeout=30)
+        args = ["debug", name, "--minimal"] + feat(e)
+        if script:
+            args += ["--command", script]
+        dbg = lace(ctx, args, stdin=b"", cwd=d, timeout=30)
+        return ix, script, plain, dbg
+    for ix, script, plain, dbg in pmap(one, range(len(entries))):
+        e = entries[ix]
+        res.evaluations += 1
+        res.cls("l2:debug_vs_run")
+        detail = {"source": e["source"][-800:], "script": script, "plain": plain.brief(), "debugged": dbg.brief()}
+        if dbg.rc is None or dbg.crashed:
+            res.violate("C09/cli/crash", "`lace debug` crashed or hung (exit %s) where `lace run` exits %s" % (dbg.rc, plain.rc), detail)
+        elif dbg.rc != plain.rc:
+            res.violate("C09/cli/exit-status", "exit status %s under the debugger, %s without" % (dbg.rc, plain.rc), detail)
+        elif dbg.out != plain.out:
+            res.violate("C09/cli/stdout", "program output differs between `lace debug` and `lace run`", detail)
+    res.require(["l2:debug_vs_run"], "L2")
+
+
+# ------------------------------------------------------------------ C05 (L2 sample)
+
+def c05_cli(ctx, res, limit):
+    cp = corpus(ctx)
+    texts = cp["fuzz"][:limit]
+    d = _dir(ctx, "c05")
+
+    def one(ix):
+        name = "z%d.asm" % ix
+        _write(os.path.join(d, name), texts[ix].encode("utf-8"))
+        f = ["-f", "stack"] if ix % 2 else []
+        return ix, lace(ctx, ["check", name] + f, cwd=d, timeout=60)
+    for ix, r in pmap(one, range(len(texts))):
+        res.evaluations += 1
+        res.cls("l2:check_fuzz")
+        if r.rc is None:
+            res.violate("C05/cli/hang", "`lace check` did not finish within 60 s", dict(r.brief(), source=texts[ix][:1500]))
+        elif r.crashed:
+            res.violate("C05/cli/crash", "`lace check` crashed (exit %s)" % r.rc, dict(r.brief(), source=texts[ix][:1500]))
+        elif r.rc != 0 and not r.err.strip():
+            res.violate("C05/cli/no-diagnostic", "`lace check` failed (exit %s) without printing a diagnostic" % r.rc,
+                        dict(r.brief(), source=texts[ix][:1500]))
+    res.require(["l2:check_fuzz"], "L2")
